@@ -59,7 +59,13 @@ def _probe(ex, run_body, entry: State, extra_locals=()):
 
 def _havoc_into(ex, st: State, mod_arr, mod_alloc, mod_locals, entry: State, tag='lp'):
     for n in sorted(mod_arr):
+        old_ = st.h.arr[n]
         st.set_arr(n, ex.fresh(st.h.arr[n].sort(), n + '!' + tag))
+        if n == 'orig':
+            # meta-invariant of the ghost origin map: written only at fresh addresses
+            x_ = z3.Const('x!og', Addr)
+            st.assume(z3.ForAll([x_], z3.Implies(z3.And(x_ >= 0, x_ < entry.h.alloc), z3.Select(st.h.arr[n], x_) == z3.Select(entry.h.arr[n], x_)),
+                                patterns=[z3.Select(st.h.arr[n], x_)]))
     if mod_alloc:
         na = ex.fresh(z3.IntSort(), 'alloc!' + tag)
         st.assume(na >= entry.h.alloc)
